@@ -34,4 +34,8 @@ def cancel_worlds(tier):
 
 CHECKS = [
     Check("greedy_sim", sim_execute([J.judge_c06], J.nontrivial_c06), strategy=cancel_worlds, budget={"quick": 2500, "thorough": 50000}),
+    Check("planner_sim", sim_execute([J.judge_c06], J.nontrivial_c06, planner=True, max_steps=1500),
+          strategy=lambda tier: specs.planner_worlds(max_jobs=4, flags=cancel_flags()), budget={"quick": 128, "thorough": 4000}),
+    Check("scripted_sim", sim_execute([J.judge_c06], J.nontrivial_c06, max_steps=1500), strategy=lambda tier: specs.scripted_worlds(flags=cancel_flags()),
+          budget={"quick": 500, "thorough": 30000}),
 ]
